@@ -1,7 +1,7 @@
 #!/bin/sh
 # tools/try_seed.sh <seed-dir-name> [tier] [extra ./check args] : run the check of the seed's property on a scratch copy of /repo with
 # the seed applied (VERIF_REPO), print the check output, remove the copy. /repo stays untouched.
-id=$1; tier=${2:-quick}; prop=${id%%-*}
+id=$1; tier=${2:-quick}; prop=${PROP:-${id%%-*}}
 copy=/var/tmp/try_$id.$$
 mkdir -p $copy
 git -C /repo archive HEAD | tar -x -C $copy
